@@ -246,7 +246,7 @@ def cases_c08(tier, seed):
     for tname, (nl, nr, fn) in TEMPLATES.items():
         V = V2 if quick else V3
         combos = list(itertools.product(itertools.product(_subsets(V), repeat=nl), itertools.product(_subsets(V), repeat=nr)))
-        cap = 140 if quick else 500
+        cap = 140 if quick else 350
         if len(combos) > cap:
             idx = sorted(rs.choice(len(combos), size=cap, replace=False))
             combos = [combos[i] for i in idx]
@@ -275,7 +275,7 @@ def cases_c08(tier, seed):
                     ntemp += 1
     # ---- random nested trees
     nrand = 0
-    for _ in range(200 if quick else 2000):
+    for _ in range(200 if quick else 1500):
         nl = int(rs.randint(2, 6 if quick else 9))
         V = V3 if rs.rand() < 0.6 else V4
         e = _random_expr(rs, nl, V)
@@ -325,8 +325,8 @@ def cases_c08(tier, seed):
         sizes="each variable 1-3 (seeded, P(1)=0.2)",
         routes=["eager", "reflect/lazy/normalize-built then eager reinterpret", "lazy/reflect/normalize-built then apply_optimizer", "lazy/reflect-built, reinterpret under unfold, then eager", "normalize idempotence (is)", "einsum / naive_einsum / naive_plated_einsum (flat, 3 backends)"],
         nested_templates={k: v[0] for k, v in TEMPLATES.items()},
-        nested_universe="2 variables, capped 140 patterns/template" if quick else "3 variables, capped 500 patterns/template",
-        random_trees=200 if quick else 2000,
+        nested_universe="2 variables, capped 140 patterns/template" if quick else "3 variables, capped 350 patterns/template",
+        random_trees=200 if quick else 1500,
         parameter_operand="one operand is tensor (x) w / tensor (other op) w / the bare Variable w; evaluated at w in {0.7, 1.9}",
         einsum_equations="<= %d operands x %d symbols, every multiset of operand symbol-sets (every tuple for <= 2 operands) x every output subset (4 operands over 4 symbols: empty, full and 6 seeded subsets); symbol order seeded; backends numpy, numpy_log, numpy_map" % (kmax, len(syms)),
         counts=dict(flat=nflat, flat_param=npar, nested=ntemp, random=nrand, einsum=neq),
